@@ -1892,6 +1892,39 @@ theorem FloatOK_of_envelope (env : FloatEnvelope) (env3 : FloatEnvelope3) {p : M
   · intro v hv
     exact OptAll_imp (hvs v hv).2.2.2.2.2.2.1 (fun f hf => FrFloatOK_of_envelope env3 hf)
 
+/-- FRAME-RATE needs no envelope: `FormatFloat(f,'f',3)` prints `round(f·1000)/1000` by definition,
+    and `ParseFloat` of that text is by definition the binary64 nearest to it — which a well-formed
+    frame rate is. -/
+theorem FrFloatOK_of_WF {f : F64} (h : WFFrameRate f) : FrFloatOK f := by
+  unfold WFFrameRate at h
+  cases f with
+  | nan => simp [F64.toMilli] at h
+  | inf n => simp [F64.toMilli] at h
+  | fin n m e =>
+    cases n with
+    | true => simp [F64.toMilli] at h
+    | false =>
+      simp only [F64.toMilli] at h
+      obtain ⟨hk, hf⟩ := h
+      generalize hkdef : (if 2 * (F64.magNum m e * 1000 % F64.magDen e) > F64.magDen e ∨
+          2 * (F64.magNum m e * 1000 % F64.magDen e) = F64.magDen e ∧ F64.magNum m e * 1000 / F64.magDen e % 2 = 1
+          then F64.magNum m e * 1000 / F64.magDen e + 1 else F64.magNum m e * 1000 / F64.magDen e) = k at hk hf
+      have hfmt : F64.fmtFixed 3 (.fin false m e) = F64.decFixed 3 k := by
+        unfold F64.fmtFixed
+        simp only [Bool.false_eq_true, if_false, List.nil_append]
+        rw [← hkdef]
+      unfold FrFloatOK
+      rw [hfmt, parseFloat_decFixed (by decide) (by decide)]
+      have hr : F64.roundRat false k (10 ^ 3) = .fin false m e := by
+        rw [hf]; rfl
+      rw [hr]
+
+theorem FloatOK_of_start {p : Multivariant} (h : WFMultivariant p)
+    (hs : OptAll p.start (fun t => DurFloatOK t.timeOffset)) : FloatOK p := by
+  refine ⟨hs, ?_⟩
+  intro v hv
+  exact OptAll_imp (h.2.2.2.1 v hv).2.2.2.2.2.2.1 (fun f hf => FrFloatOK_of_WF hf)
+
 theorem FloatOK_of_nofloat {p : Multivariant} (hs : p.start = none) (hv : ∀ v ∈ p.variants, v.frameRate = none) :
     FloatOK p := by
   constructor
